@@ -310,7 +310,7 @@ func (g *Gen) Next() Op {
 				// storage the library has not reissued: the user function kept the handle
 				var dead []int
 				for id, ref := range g.E.Nodes {
-					if ref != nil && ref.Scope != -1 && ref.Inc != nil && !ref.Recycled && ref.Kind != "BindLhs" && ref.Kind != "Pair" && !g.E.Registered(id) && g.E.Dead(id) {
+					if ref != nil && ref.Scope != -1 && ref.Inc != nil && !ref.Recycled && ref.Kind != "BindLhs" && ref.Kind != "Pair" && !g.E.Registered(id) && g.E.Dead(id) && g.inputsIntact(id, 0) {
 						dead = append(dead, id)
 					}
 				}
@@ -383,6 +383,22 @@ func (g *Gen) Next() Op {
 		}
 	}
 	return Op{K: "NewVar", V: 1}
+}
+
+// inputsIntact: no declared input of the node (transitively) is a handle whose storage the
+// library has reissued to a newer node. Linking a dead node whose input is such a handle
+// would link it under an unrelated live node: the handle's identity is gone.
+func (g *Gen) inputsIntact(id, depth int) bool {
+	ref := g.E.Nodes[id]
+	if ref == nil || ref.Recycled || depth > 64 {
+		return false
+	}
+	for _, d := range ref.Decl {
+		if !g.inputsIntact(d, depth+1) {
+			return false
+		}
+	}
+	return true
 }
 
 func sortInts(xs []int) {
